@@ -68,7 +68,8 @@ def first_collision(row):
 def run_keys(ctx):
     ctx.mc("RLSKeysMC", "RLSKeysMC.cfg", workers=4)
     ctx.neg("RLSKeysMC", "RLSKeysNeg.cfg", expect="I_Injective", workers=2)
-    ctx.neg("RLSKeysMC", "RLSKeysNeg2.cfg", expect="I_Faithful", workers=2)
+    if not ctx.quick():
+        ctx.neg("RLSKeysMC", "RLSKeysNeg2.cfg", expect="I_Faithful", workers=2)
     binary = ctx.go_build("balancer/rls/internal/keys", name="c41k", only=r"zz_verif_c41k_")
     tpath = os.path.join(ctx.run, "keys.ndjson")
     spath = os.path.join(ctx.run, "keys-sep.ndjson")
@@ -134,9 +135,11 @@ def cache_step(state_text, label):
 
 
 def run_cache(ctx):
-    ctx.mc("RLSCacheMC", ctx.pick("RLSCacheMC.cfg", "RLSCacheMCdeep.cfg"), workers=ctx.pick(4, 8))
+    # quick: the graph dump below is itself an exhaustive check of the generation scope (all invariants are in its cfg)
+    if not ctx.quick():
+        ctx.mc("RLSCacheMC", "RLSCacheMCdeep.cfg", workers=8)
+        ctx.neg("RLSCacheMC", "RLSCacheNeg2.cfg", expect="I_EvictLRU", workers=2)
     ctx.neg("RLSCacheMC", "RLSCacheNeg.cfg", expect="I_EvictLRU", workers=2)
-    ctx.neg("RLSCacheMC", "RLSCacheNeg2.cfg", expect="I_EvictLRU", workers=2)
     binary = ctx.go_build("balancer/rls", name="c41c", only=r"zz_verif_c41c_")
     g = ctx.dump_graph("RLSCacheMC", "RLSCacheGen.cfg", workers=4)
     behs = ctx.edge_cover(g, cache_step, limit=ctx.pick(1500, None))
@@ -159,7 +162,7 @@ def run_cache(ctx):
 def run_lookback(ctx):
     if not os.path.exists(os.path.join(ctx.specdir, "RLSLookbackTrace.tla")):
         return False
-    ctx.mc("RLSLookbackMC", "RLSLookbackMC.cfg", workers=4)
+    ctx.mc("RLSLookbackMC", ctx.pick("RLSLookbackMC.cfg", "RLSLookbackMCdeep.cfg"), workers=ctx.pick(4, 8))
     ctx.neg("RLSLookbackMC", "RLSLookbackNeg.cfg", expect="I_WindowSum", workers=2)
     binary = ctx.go_build("balancer/rls/internal/adaptive", name="c41l", only=r"zz_verif_c41l_")
     tpath = os.path.join(ctx.run, "lookback.ndjson")
